@@ -20,7 +20,7 @@ from . import c01
 
 PROPERTY = "C10"
 LEVEL = "exploration"
-QUICK_RUNS = 6000
+QUICK_RUNS = 20000
 THOROUGH_RUNS = 200_000
 QUICK_BUDGET_S = 100
 BATCH = 40
